@@ -551,6 +551,18 @@ func newC13Side(name string, mid0 int32, le int, link *c13Link, handler func(sid
 			})
 		}
 	}
+	if activeTracker == nil {
+		// a panic on the receive path (e.g. Unlock of a per-ID lock entry that is gone) is an observable
+		// of the history, not a crash of hx
+		cfg.ProcessReceivedMessage = func(req *pool.Message, cc *client.Conn, handler config.HandlerFunc[*client.Conn]) {
+			defer func() {
+				if r := recover(); r != nil {
+					s.note(fmt.Sprintf("panic on the receive path: %v", r))
+				}
+			}()
+			cc.ProcessReceivedMessageWithHandler(req, handler)
+		}
+	}
 	cfg.GetMID = func() int32 { return mid0 }
 	cfg.GetToken = getTok
 	cfg.Errors = func(error) {
